@@ -81,7 +81,10 @@ GraphCalls == { [op |-> "AddGraph", g |-> "g1"], [op |-> "AddGraph", g |-> "g2"]
 VertexCalls == { Call1("AddVertex", "g1", VE(VRec(i, l, d))) : i \in VIds, l \in {"L1", "L2"}, d \in {D0, D1} }
                \cup { Call1("AddVertex", "g2", VE(VRec("a", "L1", D0))),
                       CallN("AddVertex", "g1", <<VE(VRec("a", "L1", D0)), VE(VRec("a", "L2", D1))>>),
-                      CallN("AddVertex", "g1", <<VE(VRec("a", "L1", D1)), VE(VRec("b", "L2", D0))>>) }
+                      CallN("AddVertex", "g1", <<VE(VRec("a", "L1", D1)), VE(VRec("b", "L2", D0))>>),
+                      \* one id under three labels: stored and inside one batch
+                      Call1("AddVertex", "g1", VE(VRec("a", "L3", D0))),
+                      CallN("AddVertex", "g1", <<VE(VRec("a", "L1", D0)), VE(VRec("a", "L2", D0)), VE(VRec("a", "L3", D1))>>) }
 EdgeCalls == { Call1("AddEdge", "g1", EE(ERec(i, l, x[1], x[2], D0))) : i \in {"e1", "e2"}, l \in {"K1", "K2"}, x \in Ends }
              \cup { Call1("AddEdge", "g1", EE(ERec("e1", "K1", "a", "b", D1))),
                     Call1("AddEdge", "g2", EE(ERec("e1", "K1", "a", "a", D0))),
@@ -90,6 +93,7 @@ EdgeCalls == { Call1("AddEdge", "g1", EE(ERec(i, l, x[1], x[2], D0))) : i \in {"
 BulkCalls == { CallN("BulkAdd", "g1", <<VE(VRec("a", "L1", D0)), EE(ERec("e1", "K1", "a", "b", D0)), VE(VRec("b", "L2", D1))>>),
                CallN("BulkAdd", "g1", <<EE(ERec("e1", "K1", "a", "b", D0)), EE(ERec("e1", "K2", "a", "z", D1)), VE(VRec("a", "L2", D0))>>),
                CallN("BulkAdd", "g1", <<>>),
+               CallN("BulkAdd", "g1", <<VE(VRec("a", "L3", D0)), VE(VRec("a", "L1", D0)), VE(VRec("a", "L2", D1))>>),
                CallN("BulkAdd", "g2", <<VE(VRec("a", "L1", D0)), EE(ERec("e1", "K1", "a", "a", D0))>>) }
 DelCalls == { [op |-> "DelVertex", g |-> "g1", id |-> i] : i \in {"a", "b", "z"} }
             \cup { [op |-> "DelEdge", g |-> "g1", id |-> i] : i \in {"e1", "e2", "e9"} }
@@ -138,7 +142,7 @@ ObsG(G) ==
   [V |-> G.V, E |-> G.E,
    vlabels |-> {G.V[i].label : i \in DOMAIN G.V},
    elabels |-> {G.E[i].label : i \in DOMAIN G.E},
-   byLabel |-> [l \in {"L1", "L2", "X"} |-> {i \in DOMAIN G.V : G.V[i].label = l}],
+   byLabel |-> [l \in {"L1", "L2", "L3", "X"} |-> {i \in DOMAIN G.V : G.V[i].label = l}],
    adj |-> [v \in VIds |-> [o \in DOMAIN LabelOpts |->
               [outE |-> OutE(G, v, LabelOpts[o]), inE |-> InE(G, v, LabelOpts[o]),
                out |-> OutV(G, v, LabelOpts[o]), in |-> InV(G, v, LabelOpts[o])]]]]
